@@ -3825,7 +3825,8 @@ class Parameters:
         return self_._watch(fn, parameter_names, what, onlychanged, queued, precedence)
 
     def _watch(self_, fn, parameter_names, what='value', onlychanged=True, queued=False, precedence=-1):
-        parameter_names = tuple(parameter_names) if isinstance(parameter_names, list) else (parameter_names,)
+        # a name given twice is still one registration
+        parameter_names = tuple(dict.fromkeys(parameter_names)) if isinstance(parameter_names, list) else (parameter_names,)
         watcher = Watcher(inst=self_.self, cls=self_.cls, fn=fn, mode='args',
                           onlychanged=onlychanged, parameter_names=parameter_names,
                           what=what, queued=queued, precedence=precedence)
@@ -3979,7 +3980,7 @@ class Parameters:
                              "are reserved for internal Watchers.")
         assert what == 'value'
         if isinstance(parameter_names, list):
-            parameter_names = tuple(parameter_names)
+            parameter_names = tuple(dict.fromkeys(parameter_names))
         else:
             parameter_names = (parameter_names,)
         watcher = Watcher(inst=self_.self, cls=self_.cls, fn=fn,
